@@ -58,16 +58,16 @@ def main():
     crashes = walk.run_cases(c, asan, "render", inp, p, "template-render")
     c.stage("harness", cases=len(cases), crashes=crashes)
     if os.path.exists(p) and os.path.getsize(p):
-        # canary: the event with the longest fully literal output once more with one unit changed in the middle - the oracle has to
+        # canary: one event that must be reported - the oracle has to
         # report it (long payloads are printed over many lines; a collector that loses them once hid real mismatches, DESIGN 0.6)
         evs = vf.read_ndjson(p)
-        cand = [e for e in evs if len(e["out"]) > 400 and e["prefix"] == 1 and e["wsame"] == 1 and e["vsame"] == 1]
+        # (a synthetic, fully literal event: 900 units of tag-free text whose recorded output differs in one unit)
         canary_line = 0
-        if cand:
-            e = dict(max(cand[:2000], key=lambda x: len(x["out"])))
-            o = list(e["out"])
-            o[len(o) // 2] = 1 + (o[len(o) // 2] % 120)
-            e["out"] = o
+        if evs:
+            lit = [97 + (i * 7) % 26 for i in range(900)]
+            o = list(lit)
+            o[450] = 65
+            e = {"t": lit, "out": o, "prefix": 1, "wsame": 1, "vsame": 1, "meta": {"ast": [{"t": "text", "s": lit}], "doc": {"t": "Z"}, "fam": "canary"}}
             with open(p, "a") as f:
                 f.write(json.dumps(e, separators=(",", ":")) + "\n")
             canary_line = len(evs) + 1
@@ -76,7 +76,7 @@ def main():
         if canary_line:
             skipped_c = canary_line in set(t[1] for t in r.tuples("SKIPPED"))
             if canary_line not in bad and not skipped_c:
-                raise vf.MachineryError("the canary event (one unit changed in a %d-unit output) was not reported by the oracle" % len(o))
+                raise vf.MachineryError("the canary event (one unit changed in a 900-unit literal output) was not reported by the oracle")
             bad.pop(canary_line, None)
         for l in sorted(bad)[:300]:
             e = evs[l - 1]
